@@ -11,8 +11,6 @@ PROOF_FILES = ['Proofs/CstProofs.v', 'Proofs/JsonWalkProofs.v', 'Proofs/ParserPi
 CLASS_FINDING = {
     'utf16': 'C05-byte-columns-sent-as-utf16',
     'gha-quoted-uses': 'C05-quoted-uses-range-shifted',
-    'gomod-crlf': 'C05-gomod-crlf-offset-drift',
-    'gomod-path-contains-version': 'C05-gomod-version-text-found-in-module-path',
 }
 
 
@@ -63,7 +61,7 @@ def coverage(rep, doc, pkgs):
             if kind == 'utf16':
                 explained = 'utf16'
             else:
-                for c in ('gha-quoted-uses', 'gomod-crlf', 'gomod-path-contains-version'):
+                for c in ('gha-quoted-uses',):
                     if c in cls:
                         explained = c
             if explained:
@@ -117,9 +115,7 @@ def run(tier, seed):
             nstruct += 1
             s = structural(tb, p)
             if s:
-                if fmt == 'go_mod' and b'\r' in tb:
-                    rep.known(CLASS_FINDING['gomod-crlf'], {'document': t[:600], 'problem': s})
-                elif len(rep.violations) < 6:
+                if len(rep.violations) < 6:
                     rep.violation(f'{fmt}: on a damaged document a reported location is unsound: {s}', {'format': fmt, 'document': t, 'reported': p})
     if proofs_ok and outs:
         allp = pairs + mal
